@@ -9,6 +9,7 @@
 package c35
 
 import (
+	"encoding/json"
 	"fmt"
 	"math/big"
 	"math/rand"
@@ -36,7 +37,7 @@ func nSim(t string) int {
 	if t == ev.Thorough {
 		return 96
 	}
-	return 8
+	return 16
 }
 
 func init() {
@@ -47,10 +48,10 @@ func init() {
 			if t == ev.Thorough {
 				return 300000 + nSim(t)
 			}
-			return 6000 + nSim(t)
+			return 20000 + nSim(t)
 		},
 		Batches: func(t string) int { return 16 },
-		Rule:    "phase A (most cases): one consistent random voting history of a term: 1-30 P-Reps (statuses, pubkey flags, commission rates 0-100% biased to 0/100%), 1-40 voters with initial delegations and bonds (P-Rep totals = sums over voters), 0-60 vote events (bond/delegation deltas, never taking a voter's vote below zero), enable/jail events, votes to unknown P-Reps; term period 1-50, elected count 0..n+2, bond requirement 0-100%, funds 1..1e27; driven through calculator.NewPRepInfo/Add/Sort/InitAccumulated/SetStatus/ApplyVote/UpdateTotalAccumulatedPower/CalculateReward and NewVoter/ApplyVoting/ApplyEvent/CalculateReward exactly as iiss4Reward does; oracle = big-int recomputation of the period budgets and of floor(accVotes(v,P)*voterReward(P)/sum_u accVotes(u,P)). Non-trivial = distinct history with >= 1 rewarded P-Rep that has >= 2 voters and >= 1 event. Phase B (first 8 cases; thorough 96): simulator history of 7-9 terms with staking operations, commission rates, wage fund and minimum bond set; at every term start the I-Score newly credited to all accounts (claims added back) must be <= Iprep+Iwage period budget of the rewarded term.",
+		Rule:    "phase A (most cases): one consistent random voting history of a term: 1-30 P-Reps (statuses, pubkey flags, commission rates 0-100% biased to 0/100%), 1-40 voters with initial delegations and bonds (P-Rep totals = sums over voters), 0-60 vote events (bond/delegation deltas, never taking a voter's vote below zero), enable/jail events, votes to unknown P-Reps; term period 1-50, elected count 0..n+2, bond requirement 0-100%, funds 1..1e27; driven through calculator.NewPRepInfo/Add/Sort/InitAccumulated/SetStatus/ApplyVote/UpdateTotalAccumulatedPower/CalculateReward and NewVoter/ApplyVoting/ApplyEvent/CalculateReward exactly as iiss4Reward does; oracle = big-int recomputation of the period budgets and of floor(accVotes(v,P)*voterReward(P)/sum_u accVotes(u,P)). Non-trivial = distinct history with >= 1 rewarded P-Rep that has >= 2 voters and >= 1 event. Phase B (first 16 cases; thorough 96): simulator history of 7-9 terms with staking operations, commission rates, wage fund and minimum bond set; at every term start the I-Score newly credited to all accounts (claims added back) must be <= Iprep+Iwage period budget of the rewarded term.",
 		MinNonTrivial: func(t string) int {
 			if t == ev.Thorough {
 				return 100000
@@ -318,7 +319,8 @@ func phaseA(c *ev.Ctx, ci int, r *rand.Rand, lg log.Logger) {
 		c.Count("events_applied", 1)
 	}
 	pi.UpdateTotalAccumulatedPower()
-	c.Note("A %+v", *in)
+	inJSON, _ := json.Marshal(in)
+	c.Note("A %s", inJSON)
 	if err := pi.CalculateReward(fundPRep, fundWage, minBond); err != nil {
 		c.Violation("calculate.error", map[string]interface{}{"input": in, "err": err.Error()})
 		return
@@ -495,7 +497,7 @@ func phaseA(c *ev.Ctx, ci int, r *rand.Rand, lg log.Logger) {
 			"credited_to_preps": sumPRepCredit.String(), "credited_to_voters": sumVoterCredit.String(), "term_fund": fund.String()})
 	}
 	if interesting {
-		c.NonTrivial(fmt.Sprintf("%+v", *in))
+		c.NonTrivial(string(inJSON))
 	}
 	if c.WantSample() && interesting {
 		c.Sample(map[string]interface{}{"phase": "A", "case": ci, "preps": nP, "voters": nV, "events": len(in.Events), "term_period": termPeriod,
